@@ -83,6 +83,17 @@ class HeapBuilder:
             if obj is None:
                 return Z.NONE
             ty = ty.inner
+        if isinstance(ty, TAbs) and getattr(ty, "observe", None) is not None:
+            # a real library object standing for an abstract collaborator: its ghost fields are observed natively
+            if id(obj) in self.ids:
+                return Z.mk_ref(self.ids[id(obj)])
+            i = self.new_id(obj)
+            arr = self.fields.get("$cls", z3.K(z3.IntSort(), z3.IntVal(0)))
+            self.fields["$cls"] = z3.Store(arr, z3.IntVal(i), z3.IntVal(self.ctx.E.classes.cid("abs:" + ty.name)))
+            for f, v in ty.observe(obj).items():
+                arr = self.fields.get(f, z3.K(z3.IntSort(), Z.NONE))
+                self.fields[f] = z3.Store(arr, z3.IntVal(i), self.encode(v, ty.fields.get(f)))
+            return Z.mk_ref(i)
         if isinstance(ty, (TObj, TAbs)):
             if id(obj) in self.ids:
                 return Z.mk_ref(self.ids[id(obj)])
